@@ -137,6 +137,78 @@ Theorem C17_lock_discipline : forall c tid t,
 Proof. exact read_step_pure. Qed.
 Print Assumptions C17_lock_discipline.
 
+(* HISTORIES on one router (operations and dispatches interleaved, the same
+   path possibly served many times): the k-th dispatch equals the dispatch of a
+   router on which only the operations before it were performed -- earlier
+   dispatches leave no trace -- and the property predicate holds for it against
+   the routes registered at that moment *)
+Theorem C17_history : forall st0 mws pre segs order post, wf st0 ->
+  let st := apply_ops st0 (hops pre) in
+  nth_error (run_hist st0 mws (pre ++ HServe segs order :: post)) (hserves pre)
+    = Some (serve st mws order segs) /\
+  (Permutation order (routes_of st) ->
+   dispatch_class (sregs_of st) (st_default st) mws (filter_path (path_of segs))
+     (fst (serve st mws order segs)) (snd (serve st mws order segs)) = 0%N).
+Proof. exact hist_dispatch. Qed.
+Print Assumptions C17_history.
+
+(* a route that is registered, matching and strictly longer than every other
+   matching route at the moment of a dispatch gets it, whatever was dispatched
+   before (e.g. the same path while a shorter route was its longest match) *)
+Theorem C17_takeover : forall st0 mws pre segs order post b, wf st0 ->
+  Forall (fun m => snd m = true) mws ->
+  let st := apply_ops st0 (hops pre) in
+  let path := filter_path (path_of segs) in
+  Permutation order (routes_of st) ->
+  In b (routes_of st) -> path_match b path = true ->
+  (forall r, In r (routes_of st) -> path_match r path = true -> r_pat r <> r_pat b ->
+             (length (r_pat r) < length (r_pat b))%nat) ->
+  exists out, nth_error (run_hist st0 mws (pre ++ HServe segs order :: post)) (hserves pre) = Some out /\
+              handlers_of (fst out) = [r_h b] /\ snd out = match_result (Some b) path.
+Proof. exact hist_takeover. Qed.
+Print Assumptions C17_takeover.
+
+(* "registered" through a history: the route map is a finite map pattern ->
+   route; a successful Handle binds its pattern to the new handler (replacing),
+   a successful HandleRemove unbinds it, both leave every other pattern alone;
+   failed operations change nothing *)
+Theorem C17_registered_set :
+  (forall st k r, wf st -> (map_get (st_routes st) k = Some r <-> In r (routes_of st) /\ r_pat r = k)) /\
+  (forall st pat h, snd (apply_op st (OHandle pat (Some h))) = ResOk ->
+     let st' := fst (apply_op st (OHandle pat (Some h))) in
+     (exists cs, new_route_regexp (filter_path pat) = COk cs /\
+        map_get (st_routes st') (filter_path pat) = Some (mkRoute h (filter_path pat) cs)) /\
+     (forall k, k <> filter_path pat -> map_get (st_routes st') k = map_get (st_routes st) k) /\
+     st_default st' = st_default st) /\
+  (forall st pat, snd (apply_op st (ORemove pat)) = ResOk ->
+     let st' := fst (apply_op st (ORemove pat)) in
+     map_get (st_routes st') (filter_path pat) = None /\
+     (forall k, k <> filter_path pat -> map_get (st_routes st') k = map_get (st_routes st) k) /\
+     st_default st' = st_default st) /\
+  (forall st o, snd (apply_op st o) <> ResOk -> fst (apply_op st o) = st).
+Proof.
+  split; [exact registered_lookup|]. split; [exact handle_effect|]. split; [exact remove_effect|exact failed_op_effect].
+Qed.
+Print Assumptions C17_registered_set.
+
+(* non-vacuity of the history theorems: "/dev/42" is served by "/dev/{id}" (1),
+   then "/dev/{id:[0-9]+}" (2) is registered and takes the same path over, it is
+   removed again and the path falls back to (1), then to the default handler 0 *)
+Example C17_history_instance :
+  let b := fun l : list Z => l in
+  let t1 := b [47;100;101;118;47;123;105;100;125] in
+  let t2 := b [47;100;101;118;47;123;105;100;58;91;48;45;57;93;43;125] in
+  let q := [b [100;101;118]; b [52;50]] in
+  let st1 := apply_ops init_state [OHandle t1 (Some 1)] in
+  let st2 := apply_ops st1 [OHandle t2 (Some 2)] in
+  map (fun o => handlers_of (fst o))
+    (run_hist init_state []
+       [HServe q []; HOp (OHandle t1 (Some 1)); HServe q (routes_of st1); HServe q (routes_of st1);
+        HOp (OHandle t2 (Some 2)); HServe q (routes_of st2); HServe q (rev (routes_of st2));
+        HOp (ORemove t2); HServe q (routes_of st1); HOp (ORemove t1); HServe q []])
+  = [[0]; [1]; [1]; [2]; [2]; [1]; [0]].
+Proof. vm_compute. reflexivity. Qed.
+
 (* non-vacuity: "/a.b/{id:[0-9]+}" and "/a.b/{id}" both match "/a.b/42", the
    dot is literal ("/axb/42" goes to the default handler 0), the longer pattern
    wins in either iteration order, the variable is "42", middleware 7 wraps 8 *)
